@@ -30,10 +30,13 @@ def affine_eval_flag(e, dims, syms, flags):
     if n == "AffineBinaryOpExpr":
         a, b = affine_eval_flag(e.lhs, dims, syms, flags), affine_eval_flag(e.rhs, dims, syms, flags)
         k = e.kind.name
-        if k == "Add":
-            return a + b
-        if k == "Mul":
-            return a * b
+        if k in ("Add", "Mul"):
+            r = a + b if k == "Add" else a * b
+            if not (I64_MIN <= r <= I64_MAX):
+                # affine maps denote mathematical integer functions; a value that does not fit `index` is outside
+                # the modelled semantics (a lowering to wrapping arithmetic may legitimately differ)
+                raise Undefined("affine intermediate value overflows index")
+            return r
         if b <= 0:
             raise Undefined("affine div/mod by non-positive")
         if k == "Mod":
@@ -98,8 +101,10 @@ class M16(refsem.Machine):
             if olb == 0 and is_const(op.operands[0]):
                 floor_f = (iub - ilb) // ist
                 trip = max(0, _ceildiv(iub - ilb, ist))
-                src = len(range(0, oub, ost)) * trip
-                tgt = len(range(0, oub * floor_f, ost))
+                if not (I64_MIN <= oub * floor_f <= I64_MAX):
+                    self.flags.add("flatten-ub-times-factor-overflow")
+                src = max(0, _ceildiv(oub, ost)) * trip
+                tgt = max(0, _ceildiv(oub * floor_f, ost))
                 if src != tgt:
                     self.flags.add("flatten-floor-factor" if floor_f != trip else "flatten-outer-step-ignored")
 
